@@ -564,10 +564,13 @@ def insertKey (m : Nat) : List Nat → List Nat
 
 /-- `_run_program` / `run_prog`: the keys of `samples_dict` (`Result.samples_dict`) after a segment — the indices
 (`r.ind`, not the positions) of every subsystem a measurement of the segment acted on -/
-def samplesKeys (cs : List Cmd) : List Nat :=
-  cs.foldl (fun ks c => match c.op with
-    | .measure => c.reg.foldl (fun ks m => insertKey m ks) ks
-    | _ => ks) []
+def samplesStep (ks : List Nat) (c : Cmd) : List Nat :=
+  match c.op with
+  | .measure => c.reg.foldl (fun ks m => insertKey m ks) ks
+  | _ => ks
+
+/-- the keys after a whole segment -/
+def samplesKeys (cs : List Cmd) : List Nat := cs.foldl samplesStep []
 
 /-- history alphabet -/
 inductive Ev
